@@ -198,7 +198,7 @@ const QUIRKS: &[(u32, &str, &str)] = &[
 	(Q_LENMODS, "C12-several-length-modifiers-accepted", "any run of h/l/L is skipped (`%lld`), the documented parser and Python skip one"),
 	(Q_EMPTY_KEY, "C12-empty-mapping-key-rejected", "`%()s` with a field named \"\" raises 'mapping keys required'"),
 	(Q_CHAR_SAT, "C12-char-of-negative-number", "`%c` of a negative number prints U+0000 (saturating `as u32`) instead of raising"),
-	(Q_STAR_U16, "C12-star-limited-to-u16", "a `*` width or precision above 65535 raises 'number out of bounds'"),
+	(Q_STAR_U16, "C12-width-limited-to-65535", "a width or precision above 65535 (written with digits or given through `*`) raises an error instead of producing the padded text"),
 	(Q_POWI, "C12-powi-instead-of-pow", "render_float takes 10^precision from repeated multiplication (`powi`), which is not the correctly rounded power for precisions above 22: the digit block after the point is garbage (`\"%.255g\" % 10`)"),
 	(Q_FMA, "C12-fused-multiply-add-rounding", "render_float computes |n| * 10^prec + 0.5 with a fused multiply-add, so the last digit differs from the documented two-step computation (`\"%.17f\" % 0.05` ends in 1)"),];
 // Seeded mutants of R1 (plausible implementation mistakes).  After a case has been decided, each mutant is run on it:
@@ -287,6 +287,9 @@ fn parse_code(s: &[char], mut i: usize) -> R<(usize, PCode)> {
 				Some(d) if s[i].is_ascii_digit() => {
 					v = v * 10.0 + d as f64;
 					i += 1;
+					if quirk(Q_STAR_U16) && v > 65535.0 {
+						return Err(Stop::Err("field width or precision is too large"));
+					}
 				}
 				_ => return Ok((i, Fw::Num(v))),
 			}
